@@ -48,7 +48,8 @@ PROPS = {
 }
 PROBES = {'C03': ['stopped_by_max_iterations', 'converged_at_min_iterations', 'converged_in_between', 'condition_false', 'subgroup_condition_false',
                   'update_nnps_changed_neighbours', 'stop_idx_below_real', 'real_false_with_ghosts', 'named_start_stop',
-                  'sim_schedule', 'several_destinations', 'python_callbacks_compared', 'periodic_domain', 'ghosts_refreshed']}
+                  'sim_schedule', 'several_destinations', 'python_callbacks_compared', 'periodic_domain', 'ghosts_refreshed',
+                  'second_evaluation_after_update_particle_arrays']}
 
 
 # ----------------------------------------------------------------------------
@@ -67,7 +68,7 @@ def _gen_eqs(t, arrays, allow_conv):
             srcs = None
         eqs.append([cls, dest, srcs, float(t.int(1, 9))])
     if allow_conv:
-        eqs.append(['TConv', t.choice(arrays), None, float(t.int(1, 9))])
+        eqs.append([t.choice(['TConv', 'TConv', 'TConvSub']), t.choice(arrays), None, float(t.int(1, 9))])
         if t.bool(0.4):
             eqs.insert(0, ['TConv', t.choice(arrays), None, float(t.int(1, 9))])
     if not any(e[0] in ('TPost', 'TFull') for e in eqs) and t.bool(0.5):
@@ -137,7 +138,7 @@ HANDCRAFTED = [
     dict(arrays=['f', 'g'], env=dict(thresh=[300000.0, 999000.0, 999000.0, 300000.0]), groups=[
         _g(iterate=1, min=0, max=6, pre=1, post=1, eqs=[['TConv', 'f', None, 1.0], ['TLoop', 'g', ['f'], 2.0], ['TConv', 'g', None, 3.0],
                                                          ['TPost', 'f', None, 2.0]]),
-        _g(label='L1', iterate=1, min=1, max=5, eqs=[['TConv', 'g', None, 2.0], ['TConv', 'f', None, 5.0]])]),
+        _g(label='L1', iterate=1, min=1, max=5, eqs=[['TConvSub', 'g', None, 2.0], ['TConv', 'f', None, 5.0]])]),
     # iterated parent whose sub-groups each hold a convergence test, one of them conditional; the parent asks for the update
     dict(arrays=['f', 'g'], env=dict(thresh=[999000.0, 300000.0]), groups=[
         _g(iterate=1, min=1, max=5, update_nnps=1, pre=1, sub=[
@@ -193,9 +194,7 @@ def prepare(prop, tier):
         os.waitpid(p, 0)
 
 
-def _scenario(t, pid, sim_override=None):
-    prog = program(pid)
-    dim = t.choice([1, 1, 2])
+def _gen_arrays(t, prog, dim):
     arrays = {}
     hint = prog.get('env') or {}
     for a, name in enumerate(prog['arrays']):
@@ -209,13 +208,23 @@ def _scenario(t, pid, sim_override=None):
                         float(t.int(1, 900000))])
         arrays[name] = dict(pts=pts, nreal=n, h=t.choice([0.06, 0.09, 0.13]), c_start=t.choice([0, 1, 2]),
                             c_stop=t.choice([2, 3, 4, 8, 30, 0]))
-    nconv = sum(1 for g in _all_groups(prog) for e in g['eqs'] if e[0] == 'TConv')
+    return arrays
+
+
+def _scenario(t, pid, sim_override=None):
+    prog = program(pid)
+    dim = t.choice([1, 1, 2])
+    hint = prog.get('env') or {}
+    arrays = _gen_arrays(t, prog, dim)
+    nconv = sum(1 for g in _all_groups(prog) for e in g['eqs'] if e[0] in ('TConv', 'TConvSub'))
     return dict(program=pid, prog=prog, dim=dim, arrays=arrays, cond=[int(t.bool(0.7)) for _ in range(24)],
                 thresh=(list(hint['thresh']) if ('thresh' in hint and t.bool(0.6)) else
                         [t.choice([0.0, 300000.0, 700000.0, 950000.0, 999000.0, 2000000.0]) for _ in range(max(1, nconv))]),
                 t=t.choice([0.0, 0.125, 0.5, 1.0]), dt=t.choice([0.0625, 0.125, 0.25]), dx=t.choice([0.0, 0.02, 0.05]),
                 periodic=int(t.bool(0.3)),
-                sim=int(t.bool(0.5)) if sim_override is None else sim_override, sched_seed=t.int(0, 1 << 30), threads=t.choice([2, 3, 4]))
+                sim=int(t.bool(0.5)) if sim_override is None else sim_override, sched_seed=t.int(0, 1 << 30), threads=t.choice([2, 3, 4]),
+                # a second evaluation after update_particle_arrays() with new array objects (other sizes, values, named ranges)
+                rebind=(_gen_arrays(t, prog, dim) if t.bool(0.25) else None))
 
 
 def _all_groups(prog):
@@ -293,7 +302,7 @@ class Env(object):
 def build_equation(e, env, dx):
     from engines.group_eqs import CLASSES
     cls, dest, srcs, c = e[0], e[1], e[2], float(e[3])
-    if cls == 'TConv':
+    if cls in ('TConv', 'TConvSub'):
         return CLASSES[cls](dest=dest, sources=srcs, c=c, thresh=env.next_thresh())
     if cls == 'TMove':
         return CLASSES[cls](dest=dest, sources=srcs, dx=dx)
@@ -595,6 +604,23 @@ def execute(sc, prop):
         ref_nnps = LinkedListNNPS(dim=dim, particles=ref_arrays, radius_scale=rs, domain=mk_domain())
     interp = Interp(ref_arrays, env_ref, tt, dt, rs, dim, probe, domain_nnps=ref_nnps)
     interp.run(mirror_ref)
+    # second evaluation on new array objects (reference: the same Python equation objects go on with their state)
+    arrays2 = ref_arrays2 = None
+    if isinstance(sc.get('rebind'), dict):
+        sc2 = dict(sc)
+        sc2['arrays'] = sc['rebind']
+        arrays2 = make_arrays(sc2, prog)
+        ref_arrays2 = copy.deepcopy(arrays2)
+        for pa_new, pa_old in zip(ref_arrays2, arrays2):
+            pa_new.set_name(pa_old.name)
+        for pa in arrays2:
+            xs = pa.get('x', only_real_particles=False)
+            if periodic and (xs.min() < 0 or xs.max() > 1.3):
+                raise InvalidScenario('outside the periodic box')
+        ref_nnps2 = LinkedListNNPS(dim=dim, particles=ref_arrays2, radius_scale=rs, domain=mk_domain()) if periodic else None
+        interp2 = Interp(ref_arrays2, env_ref, tt + dt, dt, rs, dim, probe, domain_nnps=ref_nnps2)
+        interp2.run(mirror_ref)
+        probe('second_evaluation_after_update_particle_arrays')
     # ---- the generated program
     sim = bool(sc.get('sim'))
     for k in ('PYSPH_VERIF_SCHED', 'PYSPH_VERIF_SCHED_MODULE'):
@@ -621,6 +647,14 @@ def execute(sc, prop):
                               domain=mk_domain())
         ae.set_nnps(nnps)
         ae.compute(tt, dt)
+        if arrays2 is not None:
+            if sim:
+                omp_sim.SCHED.watch = list(arrays2)
+            ae.update_particle_arrays(arrays2)
+            nnps2 = LinkedListNNPS(dim=dim, particles=arrays2, radius_scale=rs, sort_gids=True, cache=bool(sc.get('sched_seed', 0) % 2),
+                                   domain=mk_domain())
+            ae.set_nnps(nnps2)
+            ae.compute(tt + dt, dt)
     except Exception as e:
         import traceback
         violate('evaluation-raised', 'building / running the program raised %r\n%s' % (e, traceback.format_exc()[-600:]))
@@ -634,23 +668,26 @@ def execute(sc, prop):
         for wv in omp_sim.SCHED.violations:
             violate('write-outside-own-row', wv)
     # ---- compare
-    for pa, ref in zip(arrays, ref_arrays):
+    pairs = list(zip(arrays, ref_arrays, [''] * len(arrays)))
+    if arrays2 is not None:
+        pairs += list(zip(arrays2, ref_arrays2, [' (second evaluation, after update_particle_arrays)'] * len(arrays2)))
+    for pa, ref, note in pairs:
         for p in ('s', 'acc', 'b', 'x'):
             a = pa.get(p, only_real_particles=False)
             b = ref.get(p, only_real_particles=False)
             if len(a) != len(b) or not np.array_equal(a, b):
                 i = int(np.nonzero(a != b)[0][0]) if len(a) == len(b) else -1
                 violate('state-differs-from-reference',
-                        'program %d, array %s property %s: particle %d is %r, the literal execution gives %r (%d of %d differ; real=%d)'
-                        % (pid, pa.name, p, i, float(a[i]) if i >= 0 else None, float(b[i]) if i >= 0 else None,
+                        'program %d, array %s%s property %s: particle %d is %r, the literal execution gives %r (%d of %d differ; real=%d)'
+                        % (pid, pa.name, note, p, i, float(a[i]) if i >= 0 else None, float(b[i]) if i >= 0 else None,
                            int((a != b).sum()) if i >= 0 else -1, len(a), pa.num_real_particles), prop_name=p)
                 break
         for c in ('total', 'c0', 'hist', 'hn'):
             a = pa.constants[c].get_npy_array()
             b = ref.constants[c].get_npy_array()
             if not np.array_equal(a, b):
-                violate('constant-differs-from-reference', 'program %d, array %s constant %s is %r, the literal execution gives %r'
-                        % (pid, pa.name, c, a[:8].tolist(), b[:8].tolist()), prop_name=c)
+                violate('constant-differs-from-reference', 'program %d, array %s%s constant %s is %r, the literal execution gives %r'
+                        % (pid, pa.name, note, c, a[:8].tolist(), b[:8].tolist()), prop_name=c)
                 break
     probe('python_callbacks_compared')
     if env.log != env_ref.log:
